@@ -68,6 +68,47 @@ def do_mutant(m):
     return ("mutant", mid, prop, expect, "ok" if ok else f"WRONG(rc={rc})", first)
 
 
+def scratch_patch(patch):
+    d = tempfile.mkdtemp(prefix="mtsa-selftest-")
+    shutil.copytree(os.path.join(REPO, "monkeytype"), os.path.join(d, "monkeytype"))
+    r = subprocess.run(["git", "apply", "--include=monkeytype/*", patch], cwd=d, capture_output=True, text=True)
+    if r.returncode:
+        shutil.rmtree(d)
+        return None, "patch does not apply: " + r.stderr.strip()[:120]
+    return d, ""
+
+
+def do_seed(sd):
+    """a seeded change written by an independent agent (seeded/<id>/patch.diff): its own property's check must report it"""
+    sid = os.path.basename(sd)
+    prop = sid.split("-")[0]
+    d, why = scratch_patch(os.path.join(sd, "patch.diff"))
+    if d is None:
+        return ("seed", sid, prop, "viol", "STALE", why)
+    try:
+        rc, viol, first = run_check(d, prop)
+    finally:
+        shutil.rmtree(d, ignore_errors=True)
+    return ("seed", sid, prop, "viol", "ok" if rc == 1 and viol else f"WRONG(rc={rc})", first)
+
+
+def do_refac_patch(args):
+    """a behaviour-preserving refactoring written by an independent agent: the checks must stay silent"""
+    patch, props = args
+    rid = os.path.basename(patch)[:-5]
+    d, why = scratch_patch(patch)
+    if d is None:
+        return [("refactor", rid, "-", "silent", "STALE", why)]
+    out = []
+    try:
+        for prop in props:
+            rc, viol, first = run_check(d, prop)
+            out.append(("refactor", rid, prop, "silent", "ok" if rc == 0 and not viol else f"WRONG(rc={rc})", first))
+    finally:
+        shutil.rmtree(d, ignore_errors=True)
+    return out
+
+
 def do_refactor(r):
     rid, edits, props, note = r
     d, why = scratch(edits)
@@ -96,9 +137,12 @@ def main():
     rs = [r for r in R if not a.prop or (r[2] is None or a.prop in r[2])] if a.only != "mutants" else []
     if a.prop:
         rs = [(rid, e, [a.prop], n) for rid, e, p, n in rs]
+    import glob
+    seeds = sorted(x for x in glob.glob(os.path.join(VERIF, "seeded", "C*")) if os.path.isdir(x) and (not a.prop or os.path.basename(x).startswith(a.prop + "-"))) if a.only != "refactors" else []
+    patches = [(pth, [a.prop] if a.prop else ALL) for pth in sorted(glob.glob(os.path.join(HERE, "refac_patches", "*.diff")))] if a.only != "mutants" else []
     rows = []
     with cf.ThreadPoolExecutor(max_workers=a.jobs) as ex:
-        futs = [ex.submit(do_mutant, m) for m in ms] + [ex.submit(do_refactor, r) for r in rs]
+        futs = [ex.submit(do_mutant, m) for m in ms] + [ex.submit(do_refactor, r) for r in rs] + [ex.submit(do_seed, sd) for sd in seeds] + [ex.submit(do_refac_patch, pa) for pa in patches]
         for f in futs:
             res = f.result()
             rows.extend(res if isinstance(res, list) else [res])
@@ -107,7 +151,7 @@ def main():
     for r in rows:
         if r[4] != "ok":
             print(f"{r[4]:14} {r[0]:8} {r[1]:32} {r[2]:4} expect={r[3]:6} {r[5]}")
-    nm = sum(1 for r in rows if r[0] == "mutant")
+    nm = sum(1 for r in rows if r[0] in ("mutant", "seed"))
     nr = sum(1 for r in rows if r[0] == "refactor")
     print(f"selftest: {nm} mutant runs, {nr} refactor runs, {len(bad)} wrong, {len(stale)} stale")
     if a.write_results:
@@ -118,6 +162,10 @@ def main():
             for r in rows:
                 if r[0] == "mutant":
                     f.write(f"| {r[1]} | {r[2]} | {r[3]} | {r[4]} | {(r[5] or notes.get(r[1], '')).replace('|', '/')[:160]} |\n")
+            f.write("\n## Seeded changes by independent agents (seeded/<id>/: the change breaks the property, passes the test suite; the property's own check must report it)\n\n| seed | property | result | first report |\n|---|---|---|---|\n")
+            for r in rows:
+                if r[0] == "seed":
+                    f.write(f"| {r[1]} | {r[2]} | {r[4]} | {r[5].replace('|', '/')[:160]} |\n")
             f.write("\n## Refactorings (behaviour-preserving: every check must stay silent)\n\n| refactoring | check | result | detail |\n|---|---|---|---|\n")
             for r in rows:
                 if r[0] == "refactor":
